@@ -342,6 +342,14 @@ func (m *Dev) Step(ev Event, got []Msg, signals int) *Violation {
 	var v *Violation
 	switch ev.Kind {
 	case "key":
+		if ev.Value == 2 {
+			// kernel auto-repeat of a held key: nothing happens
+			m.probe("key_repeat")
+			if len(got) > 0 || signals > 0 {
+				v = viol("repeat_event_acts", fmt.Sprintf("auto-repeat event %s produced %s signals=%d", ev, fmtMsgs(got), signals), "C02", "C14")
+			}
+			break
+		}
 		if ev.Value == 1 {
 			m.phys[heldKey{ev.Handler, ev.Code}] = true
 		} else {
@@ -666,7 +674,7 @@ func (m *Dev) Unplug(got []Msg) *Violation {
 // expected messages are appended to Predicted instead of being compared. Only key events are supported.
 func (m *Dev) Predict(ev Event) {
 	m.predict = true
-	if ev.Kind == "key" {
+	if ev.Kind == "key" && ev.Value != 2 {
 		if ev.Value == 1 {
 			m.phys[heldKey{ev.Handler, ev.Code}] = true
 		} else {
